@@ -62,7 +62,18 @@ Definition c11_corr (c : c11_case) : bool :=
 Definition count_of (x : out) (l : list out) : nat := List.length (filter (out_eqb x) l).
 Definition execs (l : list out) : list string := flat_map (fun o => match o with EvExec i => [i] | _ => [] end) l.
 
+(** "is then terminated by an error and/or a completion": wherever the verified session model terminates an
+    operation while the connection is open, the observed frames of that id contain a terminator *)
+Definition has_terminator (l : list out) : bool := existsb (fun o => match o with OError _ | OComplete _ => true | _ => false end) l.
+Definition terminated_ok (c : c11_case) : bool :=
+  if k_det c then
+    let outs := snd (run (k_cfg c) ws0 (k_labels c)) in
+    forallb (fun id => negb (has_terminator (filter (is_frame_of id) outs)) || has_terminator (lookup_ops id (k_ops c)))
+            (dedup (ids_of (k_labels c)))
+  else true.
+
 Definition c11_mon (c : c11_case) : bool :=
+  terminated_ok c &&
   forallb (fun p => frames_ok GData (snd p)) (k_ops c) &&
   before_ack_ok (k_server_order c) &&
   Nat.leb (count_closefunc (k_events c)) 1 &&
